@@ -3,7 +3,7 @@
 // documented meaning of a constraint, ref.go).
 //
 // Line protocol (one world per case; refs are plain "sha224-…" words, strings are lower hex,
-// "-" = empty; times are unix seconds):
+// "-" = empty; times are signed unix seconds of the years 1..9999, 0 = not set):
 //
 //	pn <ref> <size> <key>                              planned permanode <key>
 //	cl <ref> <size> <pnref> set|add|del <attr> <val> <date> own|other   attribute claim signed by the
@@ -234,6 +234,24 @@ func natArg(s string) (int64, bool) {
 	return n, true
 }
 
+// MinTime, MaxTime: the times of the protocol are signed unix seconds of the years 1..9999
+// (0001-01-01T00:00:01Z .. 9999-12-31T23:59:59Z); 0 means "not set" (the zero time).
+const (
+	MinTime = int64(-62135596799)
+	MaxTime = int64(253402300799)
+)
+
+func timeInRange(t int64) bool { return t == 0 || (t >= MinTime && t <= MaxTime) }
+
+// timeArg: a canonical signed decimal in the range (0 = not set).
+func timeArg(s string) (int64, bool) {
+	n, err := strconv.ParseInt(s, 10, 64)
+	if err != nil || strconv.FormatInt(n, 10) != s || !timeInRange(n) {
+		return 0, false
+	}
+	return n, true
+}
+
 func keyOK(s string) bool {
 	if s == "" || len(s) > 24 {
 		return false
@@ -269,7 +287,7 @@ func (w *world) add(tb *test.Blob, ref string, size int, kind string) bool {
 // permanode already has (the date order of its claims is then determined); unless mayBeLate it is
 // not before the latest date used so far.
 func (w *world) dateOK(s string, pn string, mayBeLate bool) (int64, bool) {
-	d, ok := natArg(s)
+	d, ok := timeArg(s)
 	if !ok || d == 0 || d >= DateCutoff || (!mayBeLate && d < w.lastDate) || w.pnDates[pn][d] {
 		return 0, false
 	}
@@ -375,7 +393,7 @@ func (w *world) exec(words []string) string {
 		size, ok := w.fresh(words[1], words[2])
 		name, ok1 := hk.UnHex(words[3])
 		whole := words[4]
-		mtime, ok2 := natArg(words[5])
+		mtime, ok2 := timeArg(words[5])
 		mime, ok3 := hk.UnHex(words[6])
 		if !ok || !ok1 || !ok2 || !ok3 || w.known[whole] != "bytes" {
 			return "bad-op"
@@ -434,7 +452,7 @@ func (w *world) exec(words []string) string {
 			return "bad-op"
 		}
 		if words[2] != "none" {
-			if t, ok := natArg(words[2]); !ok || t == 0 {
+			if t, ok := timeArg(words[2]); !ok || t == 0 {
 				return "bad-op"
 			}
 		}
